@@ -113,7 +113,7 @@ def purge_alias():
         del sys.modules[n]
 
 
-def load(mod, model_modules, real_init=(), preload=(), extra=None):
+def load(mod, model_modules, real_init=(), preload=(), extra=None, alias_abs=()):
     """Import scippneutron.<mod> from the working tree as snv.<mod> under the model.
 
     real_init: sub-packages whose real __init__ must run (default: none; synthetic packages).
@@ -121,6 +121,13 @@ def load(mod, model_modules, real_init=(), preload=(), extra=None):
     preload_real(preload)
     _ACTIVE_MODEL.update(model_modules)
     _ACTIVE_MODEL.update(extra or {})
+    extra = dict(extra or {})
+    if alias_abs:
+        # absolute imports `scippneutron.<x>` inside the module resolve to the aliased working-tree modules, not to the
+        # installed package (which is bound to the real scipp)
+        for sub in alias_abs:
+            extra[f'scippneutron.{sub}'] = load(sub, model_modules, real_init=real_init)
+        extra['scippneutron'] = sys.modules[ALIAS]
     with ModelScope(model_modules, extra):
         if ALIAS not in sys.modules:
             _synthetic_pkg(ALIAS, SRC)
